@@ -717,11 +717,27 @@ class Interp:
         if isinstance(fn, (types.MethodDescriptorType, types.WrapperDescriptorType, types.BuiltinFunctionType)) and args \
                 and isinstance(args[0], Obj) and args[0].store is not None and getattr(fn, "__objclass__", None) is dict:
             return self.dict_method(args[0], fn.__name__, args[1:], kwargs, node)
+        if isinstance(fn, types.BuiltinMethodType) and isinstance(getattr(fn, "__self__", None), dict) and fn.__name__ == "update" \
+                and args and isinstance(args[0], Obj) and args[0].store is not None:
+            # plain_dict.update(<instance of a dict subclass of the repository>): the mapping protocol of the instance
+            fn.__self__.update(args[0].store)
+            fn.__self__.update(kwargs)
+            return None
         if isinstance(fn, operator.itemgetter):
             keys = fn.__reduce__()[1]
             if len(keys) == 1:
                 return self.getitem(args[0], keys[0], node)
             return tuple(self.getitem(args[0], k, node) for k in keys)
+        if isinstance(fn, operator.attrgetter):
+            names = fn.__reduce__()[1]
+
+            def get1(o, dotted):
+                for part in dotted.split("."):
+                    o = self.getattr(o, part, node)
+                return o
+            if len(names) == 1:
+                return get1(args[0], names[0])
+            return tuple(get1(args[0], nm) for nm in names)
         if isinstance(fn, property):
             raise Unsupported("calling a property object")
         if fn is None:
@@ -785,6 +801,12 @@ class Interp:
                 return cls(*args, **kwargs)       # NamedTuple: generated, pure constructor
             except TypeError as ex:
                 self.fail("TypeError", str(ex), node)
+        if isinstance(cls, type) and issubclass(cls, enum.Enum) and len(args) == 1 and not kwargs and not isinstance(args[0], (SV, Obj, SStr, NDArr)):
+            # EnumClass(value): member lookup (evaluated by CPython on a concrete value)
+            try:
+                return cls(args[0])
+            except ValueError as ex:
+                self.raise_exc(ValueError, str(ex))
         mod = inspect.getmodule(cls)
         if mod is None or not S.is_repo_file(getattr(mod, "__file__", "") or ""):
             raise Unsupported(f"instantiation of unmodelled class {cls.__module__}.{cls.__name__}")
@@ -1762,7 +1784,10 @@ class Interp:
         if isinstance(v, (tuple, list)):
             return list(v)
         if isinstance(v, tuple_iter):
-            return list(v.items)
+            # a generator / iterator is consumed by iteration: a second pass over the same object yields nothing
+            rest = list(v.items[v.pos:])
+            v.pos = len(v.items)
+            return rest
         if isinstance(v, NDArr):
             return self.lib.numpy.iterate(self, v, node)
         if isinstance(v, LazyGen):
@@ -1933,7 +1958,7 @@ class _SymComp(Exception):
 
 
 class tuple_iter:
-    """A finished generator / iterator over concrete items (single pass semantics are not modelled)."""
+    """A generator / iterator over concrete items; `pos` is how far it has been consumed (single pass)."""
     def __init__(self, items):
         self.items = list(items)
         self.pos = 0
